@@ -521,8 +521,10 @@ class Server(base_server.BaseServer):
         """Handle a client connection request."""
         namespace = namespace or '/'
         sid = None
-        if namespace in self.handlers or namespace in self.namespace_handlers \
-                or self.namespaces == '*' or namespace in self.namespaces:
+        if namespace != '*' and (
+                namespace in self.handlers
+                or namespace in self.namespace_handlers
+                or self.namespaces == '*' or namespace in self.namespaces):
             sid = self.manager.connect(eio_sid, namespace)
         if sid is None:
             self._send_packet(eio_sid, self.packet_class(
